@@ -149,7 +149,11 @@ fn coll_aggs<T: CausableReasoning<C> + ?Sized>(v: &T, sorted: bool, out: &mut Ve
     out.push(ina.len() as i128); out.extend(ina);
 }
 
-pub fn run(args: &[i128], cont: usize) -> Vec<i128> {
+pub fn run(args: &[i128], cont: usize) -> Vec<i128> { run_rm(args, cont, false) }
+
+// [rm]: the case is a graph of causaloids followed by a list of node indices that are REMOVED again (remove_causaloid) before
+// any reasoning call: `nrem idx*` sits between the root index and the calls. Flags are reported for the live nodes only.
+pub fn run_rm(args: &[i128], cont: usize, rm: bool) -> Vec<i128> {
     let ctx1: &'static BaseContext = Box::leak(Box::new(Context::with_capacity(1, "c1", 2)));
     let ctx2: &'static BaseContext = Box::leak(Box::new(Context::with_capacity(2, "c2", 2)));
     let mut p = Parser { a: args, p: 0, ctxs: [ctx1, ctx2] };
@@ -195,8 +199,13 @@ pub fn run(args: &[i128], cont: usize) -> Vec<i128> {
             for (a, b, w) in edges {
                 if w == 0 { let _ = g.add_edge(a, b); } else { let _ = g.add_edg_with_weight(a, b, w); }
             }
+            if rm {
+                let nrem = p.next() as usize;
+                for _ in 0..nrem { let i = p.next() as usize; let _ = g.remove_causaloid(i); }
+            }
             let g: &'static BaseCausalGraph<'static> = Box::leak(Box::new(g));
-            let shapes: Vec<Shape> = kids.into_iter().enumerate().map(|(i, (k, kd))| mk_shape(g.get_causaloid(i).unwrap(), k, kd)).collect();
+            let shapes: Vec<Shape> = kids.into_iter().enumerate().filter(|(i, _)| g.contains_causaloid(*i))
+                .map(|(i, (k, kd))| mk_shape(g.get_causaloid(i).unwrap(), k, kd)).collect();
             let c: &'static C = Box::leak(Box::new(Causaloid::from_causal_graph(id, g, "graph")));
             (Top::G(c, g), Shape::Wrap(c, shapes))
         }
